@@ -88,23 +88,24 @@ type sample struct {
 }
 
 type workerResult struct {
-	Prop       string               `json:"prop"`
-	Runs       int                  `json:"runs"`
-	Skipped    int                  `json:"skipped"`
-	Nontriv    int                  `json:"nontrivial"`
-	Faults     map[string]int       `json:"faults"`
-	Probes     map[string]int       `json:"probes"`
-	Ops        int                  `json:"ops"`
-	Steps      int                  `json:"steps"`
-	Checks     int                  `json:"checks"`
-	Shapes     []uint64             `json:"shapes"`
-	Samples    []sample             `json:"samples"`
-	KnownHits  map[string]*knownHit `json:"known_hits"`
-	Violation  *replayFile          `json:"violation,omitempty"`
-	LogHash    string               `json:"log_hash,omitempty"`
-	Extra      map[string]int       `json:"extra,omitempty"`
-	Enumerated int                  `json:"enumerated,omitempty"`
-	Scheds     []uint64             `json:"scheds,omitempty"`
+	Prop        string               `json:"prop"`
+	Runs        int                  `json:"runs"`
+	Skipped     int                  `json:"skipped"`
+	Nontriv     int                  `json:"nontrivial"`
+	Faults      map[string]int       `json:"faults"`
+	Probes      map[string]int       `json:"probes"`
+	Ops         int                  `json:"ops"`
+	Steps       int                  `json:"steps"`
+	Checks      int                  `json:"checks"`
+	Shapes      []uint64             `json:"shapes"`
+	Samples     []sample             `json:"samples"`
+	KnownHits   map[string]*knownHit `json:"known_hits"`
+	Violation   *replayFile          `json:"violation,omitempty"`
+	LogHash     string               `json:"log_hash,omitempty"`
+	Extra       map[string]int       `json:"extra,omitempty"`
+	Enumerated  int                  `json:"enumerated,omitempty"`
+	Scheds      []uint64             `json:"scheds,omitempty"`
+	SkipReasons map[string]int       `json:"skip_reasons,omitempty"`
 }
 
 // ---- known findings
@@ -348,6 +349,7 @@ func fanOut(bin, dir, prop, tier string, seed uint64, total, nproc int, knownPat
 
 type aggregate struct {
 	runs, skipped, nontriv, ops, steps, checks, enumerated int
+	skips                                                  map[string]int
 	faults, probes, extra                                  map[string]int
 	shapes, scheds                                         map[uint64]bool
 	samples                                                []sample
@@ -382,6 +384,12 @@ func aggregateResults(rs []*workerResult) aggregate {
 		}
 		for _, h := range r.Scheds {
 			a.scheds[h] = true
+		}
+		for k, v := range r.SkipReasons {
+			if a.skips == nil {
+				a.skips = map[string]int{}
+			}
+			a.skips[k] += v
 		}
 		if len(a.samples) < 4 {
 			for _, s := range r.Samples {
